@@ -460,6 +460,7 @@ pub fn run_write(case: &PipeCase, record_data: bool) -> WriteOutcome {
     let sink = SimSink::new(&case.sink, record_data);
     let _ = bigtools::verif::take_probes();
     let st = sched::install(&case.sched);
+    st.lock().unwrap_or_else(|e| e.into_inner()).uncontrolled = case.mt_threads > 0;
     let rt = if case.mt_threads == 0 {
         sched::current_thread_runtime()
     } else {
